@@ -192,7 +192,7 @@ func runC20(t *verifsim.Tape, cfg engine.Config) *engine.Outcome {
 	}
 	mux.Handle("POST", "/echo/{id}", handle(false))
 	mux.Handle("POST", "/items/{id}/{*rest}", handle(true))
-	net := &simnet.Net{Tape: t, Handler: mux, Cfg: simnet.Config{Yields: true, Chunking: true, HeaderNoise: 200, ForceChunked: 200, Delay: 100}}
+	net := &simnet.Net{Tape: t, Handler: mux, Cfg: simnet.Config{Yields: true, Chunking: true, HeaderNoise: 200, ForceChunked: 200, Delay: 100, DoubleClose: 150}}
 	// ---- clients -----------------------------------------------------------------
 	nTasks := 2 + t.Pick("tasks", 4, 4, 3, 3, 2, 2, 1, 1, 1, 1, 1, 1, 1, 1, 1)
 	if cfg.Tier == "thorough" && t.Draw("many", 6) == 0 {
